@@ -344,6 +344,19 @@ func (e *Engine) failureInsideWitness(o *Obl, kf *KnownFinding) bool {
 	if kf.Witness == "" || kf.Witness == "*" {
 		return true
 	}
+	if o.Direct {
+		// bounded stand-in: every failing input must match the witness pattern
+		re, err := regexp.Compile("^(" + kf.Witness + ")$")
+		if err != nil || len(o.Fails) == 0 {
+			return false
+		}
+		for _, f := range o.Fails {
+			if !re.MatchString(f) {
+				return false
+			}
+		}
+		return true
+	}
 	w, ok := o.fc.witness[kf.Obligation]
 	if !ok {
 		return false
